@@ -347,6 +347,32 @@ def inv(A):
     return adj / d
 
 
+def inv_np(A):
+    """model of numpy.linalg.inv as the analysed code sees it: the inverse when det != 0.  For a matrix that is singular in exact
+    arithmetic the float routine is unreliable - it raises LinAlgError only when LU meets an exact zero pivot and otherwise returns
+    arbitrary (huge) values - so both outcomes are explored: LinAlgError, and a matrix of fresh unconstrained symbols."""
+    if not is_sym(A):
+        return _np.linalg.inv(A)
+    A = sym(A)
+    d = det(A)
+    nz = d != 0
+    if bool(nz) if isinstance(nz, Formula) else nz:
+        return inv(A)
+    c = ctx()
+    k = getattr(c, "_inv_garbage", 0)
+    c._inv_garbage = k + 1
+    pick = c.sym(f"invsingular{k}")
+    raises = pick > 0
+    if bool(raises) if isinstance(raises, Formula) else raises:
+        raise _np.linalg.LinAlgError("Singular matrix")
+    n = A.shape[0]
+    out = arrays.zeros((n, n))
+    for i in range(n):
+        for j in range(n):
+            out[i, j] = c.sym(f"invgarbage{k}x{i}x{j}")
+    return out
+
+
 def solve(A, B):
     if not is_sym(A) and not is_sym(B):
         return _np.linalg.solve(A, B)
@@ -437,5 +463,5 @@ def matrix_rank(A, tol=None, **k):
     return 0
 
 
-LINALG_STUBS = {"eigh": eigh, "svd": svd, "inv": inv, "pinv": pinv, "det": det, "solve": solve, "lstsq": lstsq,
+LINALG_STUBS = {"eigh": eigh, "svd": svd, "inv": inv_np, "pinv": pinv, "det": det, "solve": solve, "lstsq": lstsq,
                 "matrix_rank": matrix_rank}
